@@ -865,6 +865,11 @@ fn submit_resp(r: Option<ToClientMessage>) -> String {
         Some(ToClientMessage::SubmitResponse(SubmitResponse::TaskIdAlreadyExists(i))) => format!("= RESP submit err exists {i}"),
         Some(ToClientMessage::SubmitResponse(SubmitResponse::NonUniqueTaskId(i))) => format!("= RESP submit err nonunique {i}"),
         Some(ToClientMessage::SubmitResponse(SubmitResponse::InvalidDependencies(i))) => format!("= RESP submit err invaliddep {i}"),
+        // fix F27: a task graph naming a resource request it does not define is refused
+        Some(ToClientMessage::Error(e)) if e.contains("undefined resource request") => {
+            let id = e.split_whitespace().nth(1).unwrap_or("?").to_string();
+            format!("= RESP submit err undefrq {id}")
+        }
         other => format!("= RESP submit ?{}", other.is_some()),
     }
 }
@@ -1010,7 +1015,9 @@ async fn gen_trace(id: u64, rng: &mut Rng, tier: &str) -> String {
                             let d = deps[rng.below(deps.len() as u64) as usize];
                             deps.push(d); // the same dependency named twice
                         }
-                        tasks.push((base + i, rng.below(rqs.len() as u64) as u32, *rng.pick(&[0, 0, 1, 3]), random_crash(rng), deps));
+                        // malformed stream: now and then a task names a request index the message does not define (F27)
+                        let rqi = if rng.chance(1, 40) { rqs.len() as u32 + rng.below(2) as u32 } else { rng.below(rqs.len() as u64) as u32 };
+                        tasks.push((base + i, rqi, *rng.pick(&[0, 0, 1, 3]), random_crash(rng), deps));
                     }
                     cands.push((submit_w, Op::SubmitG { job, rqs, tasks, maxfails }));
                 }
